@@ -32,7 +32,7 @@ VARIABLES wname, wpos, rname, rpos, phase
 vars == <<wname, wpos, rname, rpos, phase>>
 Init == wname = <<>> /\ wpos = "none" /\ rname = <<>> /\ rpos = "none" /\ phase = "write"
 \* table positions take 1..MaxParts parts, column / alias positions one part
-TablePos(pos) == pos \in {"from", "target", "next_stmt_from"}
+TablePos(pos) == pos \in {"from", "target", "next_stmt_from", "table_qualifier"}
 NamesAt(pos) == IF TablePos(pos) THEN AllNames ELSE Names(1)
 Write == /\ phase = "write" /\ \E pos \in {p \in Positions : p \in {"target", "target_column", "collist", "alias_def", "from"}} : \E n \in NamesAt(pos) :
               wname' = n /\ wpos' = pos
@@ -40,9 +40,14 @@ Write == /\ phase = "write" /\ \E pos \in {p \in Positions : p \in {"target", "t
 \* which read position looks up what a write position established
 \* "..._after_rename": the table that carries the written column is renamed between the write and the read
 Pairs == {<<"target", "next_stmt_from">>, <<"target_column", "next_stmt_colref">>, <<"collist", "next_stmt_colref">>,
-          <<"target_column", "next_stmt_colref_after_rename">>, <<"alias_def", "qualifier">>, <<"from", "from">>}
+          <<"target_column", "next_stmt_colref_after_rename">>, <<"alias_def", "qualifier">>, <<"from", "from">>,
+          \* a table read without alias, named again as the qualifier of a column reference (the leaf part is what is looked up)
+          <<"from", "table_qualifier">>}
 Read == /\ phase = "read" /\ \E pos \in Positions : \E n \in NamesAt(pos) :
              <<wpos, pos>> \in Pairs /\ Len(n) = Len(wname) /\ rname' = n /\ rpos' = pos
+             \* a qualifier whose schema part names another schema is a dangling reference, not a statement of the grammar:
+             \* the schema part is written as in FROM, the table part varies
+             /\ (pos = "table_qualifier" => SubSeq(n, 1, Len(n) - 1) = SubSeq(wname, 1, Len(wname) - 1))
         /\ phase' = "done" /\ UNCHANGED <<wname, wpos>>
 Next == Write \/ Read
 Spec == Init /\ [][Next]_vars
